@@ -10,6 +10,7 @@ from ..forks import explore
 from ..ratfun import Rat
 from .. import vs
 from ..symex import (Interp, Inst, OpV, Vec, SpaceV, FieldV, NI, PyRaise,
+                     to_rat,
                      Func)
 from ..opalg import OpHooks, make_interp, apply, flags, OPFILE
 
@@ -269,6 +270,7 @@ def check(ctx):
     rep.count('dunder_instances', n_inst)
     rep.floor('R1', 'dunder x operand-sort instances', n_inst, 150)
     _merging(rep, model)
+    _fun_merging(rep, model)
     return rep
 
 
@@ -466,6 +468,86 @@ def _fun_rows(rep, model):
                                 rep.holds('R1', tag, 'denotation %s'
                                           % res['exp_show'])
     rep.count('functional_dunder_instances', n)
+
+
+def _fun_merging(rep, model):
+    """The same for the functional expression classes: every (outer, inner)
+    nesting of scalar sums / scalar multiples / sums / translations of an
+    uninterpreted functional denotes outer(inner(f))."""
+    FUN = 'odl/solvers/functional/functional.py'
+    inners = ['FunctionalScalarSum', 'FunctionalLeftScalarMult',
+              'FunctionalRightScalarMult', 'FunctionalSum',
+              'FunctionalTranslation']
+    outers = ['FunctionalScalarSum', 'FunctionalLeftScalarMult',
+              'FunctionalRightScalarMult', 'FunctionalTranslation']
+    n = 0
+    for cls in outers:
+        ci = model.get(cls)
+        if ci is None:
+            raise AnalysisError('anchor vanished: %s' % cls)
+        line = ci.methods['__init__'].lineno
+        for inner_cls in inners:
+            for lin in (False, True):
+                n += 1
+                tag = '%s.__init__[%s of %s,linear=%s]' % (
+                    cls, 'merge' if inner_cls == cls else 'outer',
+                    inner_cls, lin)
+
+                def body(I):
+                    c = Case(I, 'R', lin)
+                    F = FieldV('R')
+                    f = I.opsym('f', c.X, F, lin, functional=True)
+                    s1, s2 = Rat.var('s'), Rat.var('t')
+                    y1 = Vec(vs.sym('y1'), c.X)
+                    y2 = Vec(vs.sym('y2'), c.X)
+
+                    def build(kind, inner, par, vec):
+                        if kind == 'FunctionalSum':
+                            g = I.opsym('g', c.X, F, lin, functional=True)
+                            return I.instantiate(model.get(kind),
+                                                 [inner, g], {}), (
+                                lambda sem: lambda v: I.binop(
+                                    ast.Add, sem(v), apply(I, g, v)))
+                        if kind == 'FunctionalTranslation':
+                            return I.instantiate(model.get(kind),
+                                                 [inner, vec], {}), (
+                                lambda sem: lambda v: sem(I.binop(
+                                    ast.Sub, v, vec)))
+                        obj = I.instantiate(model.get(kind), [inner, par],
+                                            {})
+                        if kind == 'FunctionalScalarSum':
+                            return obj, (lambda sem: lambda v: I.binop(
+                                ast.Add, sem(v), par))
+                        if kind == 'FunctionalLeftScalarMult':
+                            return obj, (lambda sem: lambda v: I.binop(
+                                ast.Mult, par, sem(v)))
+                        return obj, (lambda sem: lambda v: sem(I.binop(
+                            ast.Mult, par, v)))
+                    base = lambda v: apply(I, f, v)
+                    inner, w1 = build(inner_cls, f, s1, y1)
+                    outer, w2 = build(cls, inner, s2, y2)
+                    got = apply(I, outer, c.x)
+                    want = w2(w1(base))(c.x)
+                    nf = lambda v: (vs.freeze(v.val), vs.show(v.val)) \
+                        if isinstance(v, Vec) else (to_rat(v), repr(v))
+                    return nf(got) + nf(want)
+                try:
+                    for got, gs, want, ws in run_leaves(model, body):
+                        same = (got == want) if not hasattr(
+                            got, 'is_zero') else (got - want).is_zero()
+                        if not same:
+                            rep.violation(
+                                'R1', cls + '.__init__',
+                                '%s: the nested functional evaluates to %s, '
+                                'expected %s' % (tag, gs, ws), FUN, line)
+                        else:
+                            rep.holds('R1', tag, 'denotes outer(inner(f))')
+                except Undecided as e:
+                    rep.undecided('R1', tag, str(e), FUN, line)
+                except PyRaise as e:
+                    rep.violation('R1', cls + '.__init__', '%s: raises %s'
+                                  % (tag, e.name), FUN, line)
+    rep.floor('R1', 'nested functional expressions', n, 40)
 
 
 def _merging(rep, model):
